@@ -19,7 +19,7 @@ WalletIdx(p) == {i \in 1..Len(p.ins) : p.ins[i].owner = "wallet"}
 
 Decide(p, claim) ==
   LET w == WalletIdx(p) IN
-  IF Cardinality(w) > 1 THEN "multiple-wallet-inputs"
+  IF \E a, b \in w : a # b THEN "multiple-wallet-inputs"
   ELSE IF w = {} THEN "no-wallet-input"
   ELSE LET i == CHOOSE x \in w : TRUE
            o == p.ins[i]
@@ -39,8 +39,8 @@ AfterSign(p, kept) ==
 
 \* ---- the property: what must be true of a PSBT whose transaction the wallet broadcasts
 Advertised(p, claim, kept) ==
-  /\ Cardinality(WalletIdx(p)) = 1
-  /\ LET i == CHOOSE x \in WalletIdx(p) : TRUE IN
+  \E i \in WalletIdx(p) :
+       /\ \A x \in WalletIdx(p) : x = i                 \* exactly one wallet input
        /\ p.ins[i].insc = <<claim>>
        /\ ~p.ins[i].runes
        /\ p.changeEq
